@@ -5,6 +5,15 @@ from gencommon import *
 from msggen import Gen, hostile_payload, fbits
 
 MSM_NUMBERS = [n for n in SUPPORTED if 1071 <= n <= 1137]
+# entries on one satellite of a 1059 / 1065 list: around every power of two up to the capacity (5-bit count
+# field, 8-bit counters, the capacity itself)
+FLOOD_SIZES = [31, 32, 33, 63, 64, 65, 127, 128, 129, 255, 256, 257, 270, 287, 288, 289, 300, 389, 390]
+
+
+def bias_op(g, r, n, fid, mode, shape):
+    head = g.frag(r, g.mod_of[n], "valid")
+    c = [k for k, t in enumerate(head) if t.startswith("c")][0]
+    return "ENC %d %s" % (n, " ".join(head[:c] + g.bias_list(r, fid, mode, shape=shape)))
 
 
 def gen_for(ctx):
@@ -65,6 +74,20 @@ class C01(MsgProp):
                 head = g.frag(r, g.mod_of[n], "valid")
                 c = [k for k, t in enumerate(head) if t.startswith("c")][0]
                 yield ("ENC %d %s" % (n, " ".join(head[:c] + g.bias_list(r, fid, "valid", shape=shape))), "bias-" + shape, True)
+            for k in FLOOD_SIZES:
+                yield (bias_op(g, r, n, fid, "valid", "flood%d" % k), "bias-flood", True)
+        # frames from a used builder: after builds that failed early / late / were refused, and after long frames
+        # (C12 says the bytes are those of a fresh builder; here the frame itself must decode and re-encode)
+        self.hist_ops = []
+        late = [bias_op(g, r, n, fid, "valid", "latefail")[4:] for n, fid in
+                ((1059, "df_msg1059_biases"), (1065, "df_msg1065_biases")) if n in g.numbers]
+        early = ["1020 " + " ".join(patch_first_int(g.frag(r, "msg1020", "valid"), 1, 127))] if 1020 in g.numbers else []
+        big = [g.message(r, n, "valid", lens=10 ** 6) for n in (1057, 1004, 1077, 1029) if n in g.numbers]
+        for n in g.numbers:
+            for hist in ([r.choice(late)] if late else []) + ([r.choice(early)] if early else []) + [r.choice(big), "E", r.choice(late or big) + " ; " + r.choice(late or big)]:
+                op = "BUILDSEQ " + hist + " ; " + g.message(r, n, "safe", lens=r.choice([0, 1, 2, 3]))
+                self.hist_ops.append(op)
+                yield (op, "used-builder", True)
         # decoded-from-frames messages
         frames = []
         for n in g.numbers:
@@ -75,6 +98,39 @@ class C01(MsgProp):
             yield (f, "dec-random-payload", True)
         for e in self.second_round(ctx, frames, "MSG ", "ENC "):
             yield (e, "decoded-fed-back", True)
+
+    def run(self, ctx):
+        extra = super().run(ctx)
+        if ctx.replay:
+            return extra
+        # the last frame of every used-builder session decodes to its type and re-encodes (fresh builder) to
+        # the same bytes
+        fails = 0
+        ops = getattr(self, "hist_ops", [])
+        for prof, exe in (("release", ctx.exe_release), ("relchk", ctx.exe_relchk)):
+            ans = ctx.run_all([exe], ops, 20.0)
+            frames = []
+            for op, a in zip(ops, ans):
+                last = a.split(" ; ")[-1].strip() if a else ""
+                if last and " " not in last and all(ch in "0123456789abcdef" for ch in last):
+                    frames.append((op, last))
+            dec = ctx.run_all([exe], ["DEC " + f for _, f in frames], 20.0)
+            re_ops, keep = [], []
+            for (op, f), d in zip(frames, dec):
+                if not d.startswith("MSG "):
+                    fails += 1; self.fail(ctx, op, prof, "frame from a used builder decodes to " + d[:60]); continue
+                re_ops.append("ENC " + d[4:]); keep.append((op, f))
+            re = ctx.run_all([exe], re_ops, 20.0)
+            for (op, f), f2 in zip(keep, re):
+                if f2 != f:
+                    fails += 1; self.fail(ctx, op, prof, "re-encoding the decoded message does not reproduce the frame built by the used builder: " + f[:80] + " vs " + f2[:80])
+        ctx.cov["oracle_failures"] += fails
+        ctx.cov["used_builder_sessions"] = len(ops)
+        return extra
+
+    def fail(self, ctx, op, prof, why):
+        if len(ctx.violations) < 60:
+            ctx.violations.append({"op": op[:3000], "profile": prof, "oracle": "FAIL C01 " + why})
 
 
 @register
@@ -110,10 +166,8 @@ class C09(MsgProp):
             txt = ("é" * (t // 2) + "a" * (t % 2)).encode()     # <= 127 characters, t bytes
             yield ("ENC 1029 i%d i%d i%d b%s" % (r.randrange(4096), r.randrange(65536), r.randrange(86400), hx(txt)), "payload-size-boundary", True)
         for n, fid in ((1059, "df_msg1059_biases"), (1065, "df_msg1065_biases")):
-            for shape in ("flood", "flood", "over31", "allsats", "cap", "badsat"):
-                head = g.frag(r, g.mod_of[n], "valid")
-                c = [k for k, t in enumerate(head) if t.startswith("c")][0]
-                yield ("ENC %d %s" % (n, " ".join(head[:c] + g.bias_list(r, fid, "wild", shape=shape))), "bias-" + shape, True)
+            for shape in ["flood", "flood", "over31", "allsats", "cap", "badsat"] + ["flood%d" % k for k in FLOOD_SIZES]:
+                yield (bias_op(g, r, n, fid, "wild", shape), "bias-" + shape.rstrip("0123456789"), True)
         # regression inputs of the repaired defects D2, D3, D4, D5
         for f in g.frags.values():
             if f["macro"] == "msm_data_seg_frag":
@@ -177,6 +231,29 @@ class C02(MsgProp):
             yield ("ITER " + hx(s), "raw-mixed", False)
         yield ("DEC " + hx(mk_frame(b"")), "empty", False)
         yield ("DEC " + hx(mk_frame(b"\x3e")), "empty", False)
+        # frames the real encoder produces from generated values of every type (text with 1..4-byte characters,
+        # lists at every length class, MSM sets, bias lists), and variants of them with the checksum recomputed:
+        # the decoder paths behind a *valid* prefix, which random payloads hardly ever reach
+        encs = []
+        for n in g.numbers:
+            for _ in range(4 if not thorough else 10):
+                encs.append("ENC " + g.message(r, n, r.choice(["valid", "valid", "safe", "wild"])))
+        for txt in ("\U0001F600", "a\U00010000", "\U0010FFFF" * 3, "é日\U0001F600x", "\uFEFFtext", "\U0001D11E" * 63):
+            encs.append("ENC 1029 i%d i%d i%d b%s" % (r.randrange(4096), r.randrange(65536), r.randrange(86400), hx(txt.encode())))
+        ans = ctx.run_all([ctx.exe_release], encs, 20.0)
+        for a in ans:
+            if a and " " not in a and all(ch in "0123456789abcdef" for ch in a):
+                fr = bytes.fromhex(a)
+                yield ("DEC " + a, "encoder-output", True)
+                for v in mutate_frame(r, fr):
+                    yield ("DEC " + hx(v), "encoder-output-mutated", True)
+        # 1029 frames written by hand: valid UTF-8 of every sequence length, with consistent and inconsistent counts
+        for txt in ("\U0001F600", "ab\U00010348cd", "\U0010FFFF", "\u0800\uFFFF", "\u0080\u07FF", "\U0001F600" * 63, "a" * 255):
+            body = txt.encode()[:255]
+            for dl in (0, 1, -1):
+                bits = int_bits(1029, 12) + int_bits(5, 12) + int_bits(1, 16) + int_bits(2, 17) + \
+                    int_bits(min(127, len(txt)), 7) + int_bits(max(0, min(255, len(body) + dl)), 8)
+                yield ("DEC " + hx(mk_frame((bits_to_bytes(bits) + body)[:1023])), "text-utf8", True)
 
 
 def bits_to_bytes(bits):
@@ -310,9 +387,12 @@ class C12(MsgProp):
         for n in (1057, 1059, 1065, 1004, 1012, 1077, 1127, 1029):
             big.append(g.message(r, n, "valid", lens=10 ** 6))
         early_fail = ["1020 " + " ".join(patch_first_int(g.frag(r, "msg1020", "valid"), 1, 127))]
+        # builds refused after most of a long body was written: the last satellite group of a 1059 / 1065
+        # list carries more than 31 entries (no typed message can overflow the buffer: C15 list_fits)
         late_fail = []
-        for n in (1057, 1060, 1066):
-            late_fail.append(g.message(r, n, "wild", lens=10 ** 6))
+        for n, fid in ((1059, "df_msg1059_biases"), (1065, "df_msg1065_biases"), (1059, "df_msg1059_biases")):
+            if n in g.numbers:
+                late_fail.append(bias_op(g, r, n, fid, "valid", "latefail")[4:])
         special = ["E", "C", "U1150"]
         # length ladder: a frame followed by one whose body is 1..3 bytes longer or shorter, so that the
         # second frame's last body byte / checksum lands on bytes the first one left behind
@@ -548,10 +628,12 @@ class C16(MsgProp):
                 self.plan.append((n, op))
                 yield (op, "bias-" + shape, shape not in ("empty", "small"))
         for n, fid in ((1059, "df_msg1059_biases"), (1065, "df_msg1065_biases")):
-            for shape in ("flood", "flood", "over31"):
-                head = g.frag(r, g.mod_of[n], "valid")
-                c = [k for k, t in enumerate(head) if t.startswith("c")][0]
-                yield ("ENC %d %s" % (n, " ".join(head[:c] + g.bias_list(r, fid, "wild", shape=shape))), "bias-" + shape + "-dups", True)
+            for shape in ["flood", "flood", "over31"] + ["flood%d" % k for k in FLOOD_SIZES]:
+                # recognised signals repeating on one satellite: "either an error or every entry comes back"
+                # applies to these too (keys compared with their multiplicity)
+                op = bias_op(g, r, n, fid, "valid", shape)
+                self.plan.append((n, op))
+                yield (op, "bias-" + shape.rstrip("0123456789") + "-dups", True)
         for i in range(per):
             head = g.frag(r, "msg1230", "valid")
             c = [k for k, t in enumerate(head) if t.startswith("c")][0]
